@@ -1713,7 +1713,8 @@ func compare(res *vh.Result, a vh.Args, cases []*testCase, searchOnly bool) {
 		}
 		for n := range c.impl {
 			res.Count(c.class+":"+c.names[n], c.line+"#"+strconv.Itoa(n), c.impl[n] != "ERR")
-			propFail := c.oracle[n] != "" && c.impl[n] != c.oracle[n]
+			// a panic out of a public operation on admissible inputs is a failure of the property itself
+			propFail := (c.oracle[n] != "" && c.impl[n] != c.oracle[n]) || strings.Contains(c.impl[n], "PANIC")
 			corrOK := true
 			detail := ""
 			if c.cmpTok != nil {
